@@ -721,6 +721,20 @@ pub fn replay(inp: &str, out_dir: &str) {
             "fmt" => crate::obj::ev_fmt(&mut sh, &v_hash(&e["h"]), true),
             "norm" => crate::obj::ev_norm(&mut sh, &v_hash(&e["h"])),
             "dual" => crate::obj::ev_dual(&mut sh, &v_hash(&e["h"]), &H { k: 7, a: vec![9u8; 64], b: vec![2u8; 64] }),
+            "dualord" => {
+                let fam: Vec<H> = e["fam"].as_array().map(|a| a.iter().map(v_hash).collect()).unwrap_or_default();
+                crate::obj::ev_dualord(&mut sh, &fam);
+            }
+            "sort" => {
+                // re-sort the recorded input
+                let inp: Vec<H> = e["in"].as_array().map(|a| a.iter().map(v_hash).collect()).unwrap_or_default();
+                let mut objs: Vec<LongRawFuzzyHash> = inp.iter().map(|h| LongRawFuzzyHash::new_from_internals_near_raw(h.k, &h.a, &h.b)).collect();
+                let j = |o: &LongRawFuzzyHash| H { k: o.log_block_size(), a: o.block_hash_1().to_vec(), b: o.block_hash_2().to_vec() }.j_pub();
+                let inj: Vec<String> = objs.iter().map(j).collect();
+                objs.sort();
+                let outj: Vec<String> = objs.iter().map(j).collect();
+                sh.emit(&format!("{{\"ev\":\"sort\",\"T\":\"RL\",\"in\":[{}],\"out\":[{}]}}", inj.join(","), outj.join(",")));
+            }
             "ord" => {
                 let which = match e["T"].as_str().unwrap_or("RL") {
                     "RL" => 0,
